@@ -754,7 +754,8 @@ def main(prop: Property, argv=None):
         import signal as _sig
         _sig.signal(_sig.SIGTERM, _sig.SIG_IGN)
         try:
-            os.killpg(os.getpgrp(), _sig.SIGTERM)
+            if os.getpgrp() == os.getpid():  # only our own group (never the caller's)
+                os.killpg(os.getpgrp(), _sig.SIGTERM)
         except OSError:
             pass
         os._exit(2)
